@@ -27,6 +27,20 @@ def eff_bases(n):
     return tuple(n.__bases__) or (Interface,)
 
 
+class DependentFault(Exception):
+    pass
+
+
+class RaisingDependent:
+    """Subscribed to a specification; raises the first time it is told about a change."""
+    fired = False
+
+    def changed(self, originally_changed):
+        if not self.fired:
+            self.fired = True
+            raise DependentFault('dependent failed')
+
+
 class SpecProxy:
     def __init__(self, spec):
         self._spec = spec
@@ -338,6 +352,22 @@ class Graph:
             nb = tuple(ifs) + (implementedBy(n.cls),)
             how = 'assign'
         self.ctx.op('rebase', n.name, [self.name_of(b) for b in nb])
+        if not STRICT and rng.random() < 0.12:
+            # the assignment fails half-way: one of the specification's dependents raises from its changed().  The
+            # specification itself has its new bases by then and must answer for them (what its other dependents say
+            # is unspecified); repeating the assignment without the fault brings everybody up to date.
+            dep = RaisingDependent()
+            n.spec.subscribe(dep)
+            try:
+                n.spec.__bases__ = nb
+                raised = False
+            except DependentFault:
+                raised = True
+            n.spec.unsubscribe(dep)
+            if raised:
+                self.ctx.count('assignments_interrupted_by_a_raising_dependent')
+                self.check_own(n.spec, nb)
+            self.ctx.op('rebase-again', n.name)
         try:
             n.spec.__bases__ = nb
         except IRO as e:
@@ -345,6 +375,28 @@ class Graph:
             return False
         self.after_mutation(idx, before, how)
         return True
+
+    def check_own(self, S, nb):
+        """After an interrupted assignment: S has the new bases and answers for them."""
+        ctx = self.ctx
+        ctx.ev()
+        if tuple(S.__bases__) != tuple(nb):
+            ctx.violation('interrupted-assignment-bases', {'spec': self.name_of(S)})
+        rs, rl = util.reach(S, util.spec_bases)
+        if self.conflated(S, rl):
+            return
+        sro_ids = {id(x) for x in S.__sro__}
+        if sro_ids != {id(S)} | rs | {id(Interface)}:
+            ctx.violation('interrupted-assignment-sro', {'spec': self.name_of(S), 'sro': [self.name_of(x) for x in S.__sro__],
+                                                         'bases': [self.name_of(b) for b in nb]})
+        for T in self.live_specs() + [Interface]:
+            ctx.ev()
+            same = T is S or (isinstance(T, InterfaceClass) and isinstance(S, InterfaceClass) and T == S)
+            exp = same or id(T) in rs or T is Interface or \
+                (isinstance(T, InterfaceClass) and any(isinstance(x, InterfaceClass) and x == T for x in rl))
+            if bool(S.isOrExtends(T)) != exp:
+                ctx.violation('interrupted-assignment-extends', {'S': self.name_of(S), 'T': self.name_of(T), 'expected': exp,
+                                                                 'bases': [self.name_of(b) for b in nb]})
 
     def after_mutation(self, idx, before, how):
         after = self.reach_sets()
